@@ -270,7 +270,8 @@ def gen_value(rng, depth, allow_nonfinite=False, fn_rate=0):
     if r < 9:
         return ("str", gen_string(rng))
     if r < 12:
-        return ("list", [gen_value(rng, depth - 1, allow_nonfinite, fn_rate) for _ in range(rng.below(4))])
+        return ("list", [gen_value(rng, depth - 1, allow_nonfinite, fn_rate)
+                         for _ in range(rng.choice([0, 1, 2, 3, 3, 5]))])
     keys = []
     for _ in range(rng.below(5)):
         k = gen_key(rng)
@@ -302,7 +303,7 @@ def gen_doc(rng, depth, fn_rate=0):
     if r < 10:
         return ("s", gen_string(rng))
     if r < 13:
-        return ("a", [gen_doc(rng, depth - 1, fn_rate) for _ in range(rng.below(4))])
+        return ("a", [gen_doc(rng, depth - 1, fn_rate) for _ in range(rng.choice([0, 1, 2, 3, 3, 5]))])
     ent = []
     for _ in range(rng.below(5)):
         k = gen_key(rng)
